@@ -3,7 +3,7 @@ import math
 
 import numpy as np
 
-MOLS = ['H2O', 'CH4', 'CO2', 'CO', 'NH3']
+MOLS = ['H2O', 'CH4', 'CO2', 'CO', 'NH3', 'HCN']        # HCN: no Rayleigh cross-section is tabulated for it
 
 
 def mem_opacity_class():
